@@ -40,6 +40,89 @@ pub fn string_failure(f: Fmt, s: &str, must_succeed: bool) -> Option<String> {
     }
 }
 
+/// The same relation through the batch entry point: position i of `parse_multi(batch)` against the
+/// lexical parse + fold of input i alone.  Some((position, why)).
+pub fn batch_failure(f: Fmt, batch: &[String]) -> Option<(usize, String)> {
+    let r = crate::guard::observe(|| {
+        let mut joined = String::new();
+        parse_multi_any(f.e(), batch, &mut joined).into_iter().map(|r| r.map(|v| canon_real_narsese(&v)).map_err(|e| e.to_string())).collect::<Vec<_>>()
+    });
+    let rs = match r {
+        crate::guard::Obs::Ret(v) => v,
+        crate::guard::Obs::Panic(p) => return Some((0, format!("parse_multi panicked on the batch: {}", p))),
+    };
+    if rs.len() != batch.len() {
+        return Some((0, format!("parse_multi returned {} results for {} inputs", rs.len(), batch.len())));
+    }
+    for (i, (r, s)) in rs.iter().zip(batch.iter()).enumerate() {
+        let b = lex_fold_parse(f, s);
+        match (r, &b) {
+            (Ok(x), Out::Ok(y)) if x == y => {}
+            (Err(_), Out::Err(_)) => {}
+            _ => {
+                return Some((
+                    i,
+                    format!("{:?} at position {} of a parse_multi batch = {} but lexical parser + fold = {}", s, i, match r { Ok(x) => x.clone(), Err(e) => format!("Err({})", e.chars().take(60).collect::<String>()) }, b.short()),
+                ))
+            }
+        }
+    }
+    None
+}
+
+thread_local! {
+    /// the strings that passed the pairwise check most recently, per format, waiting to go through `parse_multi` together
+    static RECENT: std::cell::RefCell<[Vec<String>; 3]> = const { std::cell::RefCell::new([Vec::new(), Vec::new(), Vec::new()]) };
+}
+
+/// collect the strings that passed; every 12 of one format are parsed as one batch (rotated so that
+/// every collected string is the first input of some batch over time)
+fn remember(ctx: &mut Ctx, f: Fmt, s: &str) {
+    let fi = ALL_FMT.iter().position(|x| *x == f).unwrap();
+    let batch: Option<Vec<String>> = RECENT.with(|r| {
+        let mut r = r.borrow_mut();
+        if s.chars().count() <= 400 {
+            r[fi].push(s.to_string());
+        }
+        if r[fi].len() >= 12 {
+            let mut b = std::mem::take(&mut r[fi]);
+            let k = (ctx.report.evaluations as usize) % b.len();
+            b.rotate_left(k);
+            Some(b)
+        } else {
+            None
+        }
+    });
+    if let Some(b) = batch {
+        ctx.report.bump("batches-of-12-through-parse_multi");
+        if let Some((i, w)) = batch_failure(f, &b) {
+            // shrink the batch: drop inputs while the same position keeps failing
+            let mut cur = b.clone();
+            let mut pos = i;
+            let mut k = 0;
+            while k < cur.len() {
+                if k != pos {
+                    let mut c = cur.clone();
+                    c.remove(k);
+                    let np = if k < pos { pos - 1 } else { pos };
+                    if matches!(batch_failure(f, &c), Some((j, _)) if j == np) {
+                        cur = c;
+                        pos = np;
+                        continue;
+                    }
+                }
+                k += 1;
+            }
+            let w2 = batch_failure(f, &cur).map(|x| x.1).unwrap_or(w);
+            ctx.report.violate(
+                format!("C03|{}|batch|{}", f.name(), w2.split(" = ").nth(1).unwrap_or("").chars().take(30).collect::<String>()),
+                format!("[{}] {} (batch {:?})", f.name(), w2, cur),
+                J::obj().set("kind", "batch").set("format", f.name()).set("inputs", J::Arr(cur.iter().map(J::from).collect())).set("why", w2.clone()),
+            );
+        }
+    }
+}
+
 fn value_failure(f: Fmt, nd: &ND, variant: u64) -> Option<String> {
     let v = nd.build();
     let s = f.e().format_narsese(&v);
@@ -62,7 +145,17 @@ fn check_value(ctx: &mut Ctx, f: Fmt, nd: &ND, variant: u64, family: &str) {
     }
     nd.term().visit(&mut |t| ctx.report.bump(&format!("ctor.{}.{}", f.name(), t.k.tag())));
     ctx.report.sample(|| J::obj().set("format", f.name()).set("string", f.e().format_narsese(&nd.build())));
-    if let Some(w) = value_failure(f, nd, variant) {
+    let verdict = value_failure(f, nd, variant);
+    if verdict.is_none() {
+        let s = f.e().format_narsese(&nd.build());
+        remember(ctx, f, &s);
+        if variant % 3 == 0 {
+            // ... and the compact spelling of the same value (no blanks between tokens)
+            let toks = tokens(f, nd, &mut Sugar::default());
+            remember(ctx, f, &toks.concat());
+        }
+    }
+    if let Some(w) = verdict {
         let small = shrink_nd(nd, &mut |c| value_failure(f, c, variant).is_some(), 300);
         let w2 = value_failure(f, &small, variant).unwrap_or(w);
         ctx.report.violate(
@@ -177,6 +270,12 @@ pub fn run(ctx: &mut Ctx) {
 pub fn replay(ctx: &mut Ctx, d: &J) -> Option<()> {
     let f = fmt_of(d)?;
     match jstr(d, "kind")?.as_str() {
+        "batch" => {
+            let inputs: Vec<String> = d.get("inputs")?.as_arr()?.iter().filter_map(|x| x.as_str().map(|s| s.to_string())).collect();
+            if let Some((_, w)) = batch_failure(f, &inputs) {
+                ctx.report.violate(format!("C03|{}|batch", f.name()), w, d.clone());
+            }
+        }
         "string" => {
             let s = jstr(d, "input")?;
             if let Some(w) = string_failure(f, &s, false) {
